@@ -46,6 +46,31 @@ CHECKS = {
          "Exact (iff) key-set comparison per module for generated configurations aimed at the generated module paths; bounded search.",
          "Flat dotted keys with scalar values only (the property's quantifier); one known finding excluded by construction (see known_findings.json).",
          "DESIGN.md section 5, C17"),
+ "C07": ("exploration",
+         "property-based testing: generated channel metrics and traffic (bursts, gaps around the transmission time, both tie orders) against an independent channel model running on RefSim",
+         "Every offered message is accounted for (start, delivery time window, drop, order, busy flag) in generated traffic; bounded search.",
+         "Ties between timers and transmission ends follow the order C03 states; tau = from_secs_f64(len*8/bitrate) within 1 ns of the rational; one known finding excluded by construction.",
+         "DESIGN.md section 5, C07"),
+ "C08": ("exploration",
+         "property-based testing: generated gate chains (1..16 hops, connect calls in generated permutation/orientation, repeated connects, channels on hops) with sends from both ends against the generator's own description",
+         "Exact delivery (once, far-end owner, time = sum of hop delays, header fields), probe order, chain enumeration mirror; bounded search.",
+         "Sends are never contended (100 s apart); third-peer rejection is only checked for the panic (the property does not promise a usable chain after a caught panic).",
+         "DESIGN.md section 5, C08"),
+ "C12": ("exploration",
+         "property-based testing: generated module trees and insertion orders against a depth-first pre-order model of the start-up log",
+         "Exact equality of the at_sim_start call sequence with the model for generated trees/insertion orders/stage counts; bounded search.",
+         "<= 25 modules, depth <= 4; order among at_sim_end calls not asserted.",
+         "DESIGN.md section 5, C12"),
+ "C14": ("exploration",
+         "property-based testing: generated processing stacks and event timelines; the full hook/handler log is compared with an independent interpretation of the stack rules",
+         "Exact log equality for start-up stages, messages, timer wake-ups and tear-down over generated stacks; bounded search.",
+         "Injected events have distinct timestamps; sends during tear-down are not modelled.",
+         "DESIGN.md section 5, C14"),
+ "C19": ("exploration",
+         "property-based testing: generated module graphs (chains through transit gates, multi-edges, self-loops, isolated modules) against the generator's own edge list, own BFS for reachability/distances, validity predicate for dijkstra",
+         "Node/edge multisets of the global, spanned and filtered views and the derived queries compared with a reference graph; bounded search.",
+         "<= 10 modules, <= 14 chains, <= 16 hops; bidirectional() asserted only where node- and gate-level readings agree.",
+         "DESIGN.md section 5, C19"),
 }
 REASON_TODO = "check not built yet in this revision (planned, see DESIGN.md section 5)"
 
